@@ -40,7 +40,8 @@ for _p, _t, _tech in [
      "TLA+ step model of Authorize + TLC theorem Monotone over all catalogue instances; spec->code replay of every instance"),
     ("C03", "TLC proves Scoped / Visible / SameWorld / OrderFree for every two-later-block instance (and refutes Scoped without the private "
             "world copy). Replay authorizes the token, the token with each block reduced to its checks, and the token with blocks swapped, "
-            "and runs a panel of authorizer queries: verdicts, authority-level facts and query results must be identical and equal the model.",
+            "and runs a panel of authorizer queries: verdicts, authority-level facts and query results must be identical and equal the model; "
+            "random first-order programs continue after Authorize with a query and a second Authorize that must agree with the first evaluation.",
      "TLA+ step model + TLC theorems Scoped/Visible/OrderFree; spec->code replay with stripped and swapped variants"),
     ("C04", "TLC proves that the step procedure computes the declarative RefVerdict (all checks in scope, first matching policy, check "
             "failure precedence) on every instance and refutes it when authority rules stay active in block scope. Each instance's verdict "
@@ -49,7 +50,8 @@ for _p, _t, _tech in [
     ("C12", "Order independence is a theorem of the model by construction (sets) and of the operational join model (all fact-list orders, "
             "C05). Replay presents every instance shuffled (facts, rules, checks, queries), with duplicated facts, renamed variables and "
             "Authorize called twice, and evaluates catalogue and random Datalog programs in several fact/rule orders: all must give the "
-            "single specification outcome and derived fact set (TLC trace validation).",
+            "single specification outcome and derived fact set (TLC trace validation). State kept inside the process by earlier cases is caught by "
+            "replaying a discrepant case after the cases the same driver process ran before it.",
      "TLA+ model (set semantics) + TLC; spec->code replay of permuted presentations; TLC trace validation of permuted programs"),
 ]:
     CLAIMED[_p] = dict(category="model_checking", text=_t, design="6/" + _p, technique=_tech, note=AUTHZ_NOTE)
@@ -57,7 +59,8 @@ CLAIMED["C13"] = dict(category="model_checking",
     text="Lifecycle.tla models the authorizer object (New/Add/Authorize/Query/Reset with base world); TLC checks ResetClean on every "
          "history of 2-3 rounds and refutes it for the pinned tree's mechanism (base overwritten after Authorize). Every history is replayed "
          "on one reused authorizer and each round's verdict and query results must be those of a fresh authorizer (the model's values); rounds "
-         "include aborted evaluations, Reset without evaluation, and content arriving through LoadPolicies.",
+         "include aborted evaluations, Reset without evaluation, content arriving through LoadPolicies, and authorizers created with run limits "
+         "(the limits are part of the state Reset must restore; negative model: Reset falls back to the default limits).",
     design="6/C13", technique="TLA+ lifecycle state machine + TLC invariant ResetClean; spec->code replay of all round histories",
     note=AUTHZ_NOTE)
 CLAIMED["C11"] = dict(category="model_checking",
@@ -68,11 +71,12 @@ CLAIMED["C11"] = dict(category="model_checking",
          "after return are compared. DatalogRun.tla's limit contract is validated on the real engine by TLC trace validation; Authz.tla's run "
          "limits (inherited by every per-block world) are replayed on two-later-block tokens incl. a retry after a limit error.",
     design="6/C11", technique="TLA+ model of the goroutine/channel protocol, TLC safety+liveness; spec->code replay of every scenario with goroutine-profile observation",
-    note="Trusted: TLC; runtime.Stack as observation of blocked goroutines; timer scenarios depend on real scheduling (either timeout or nominal outcome accepted).")
+    note="Trusted: TLC; runtime.Stack as observation of blocked goroutines; timer scenarios depend on real scheduling (timeout or a nominal ERROR outcome accepted; success is not: one rule application cannot fit the budget).")
 CLAIMED["C08"] = dict(category="model_checking",
     text="SymHeap.tla models Go slice headers over backing arrays with nondeterministic growth capacity behind every operation that copies or "
          "extends a symbol table; TLC checks Immutable/WireStable over all interleavings (<=5/6 operations) and refutes them for the pinned "
-         "tree's header-copy Clone. TLC-simulated and generated histories (up to 24 tokens, chains of 0-6 blocks, siblings) are stepped through "
+         "tree's header-copy Clone, for an in-place block list and for a Build that hands the builder's table over (builders are not "
+         "consumed by Build; authority builders are objects too). TLC-simulated and generated histories (up to 24 tokens, chains of 0-6 blocks, siblings) are stepped through "
          "the spec's actions by TLC (TraceHeap) to obtain each object's expected content, executed on the real library, and every live token "
          "and block is re-observed after every operation.",
     design="6/C08", technique="TLA+ slice-heap model + TLC invariant Immutable; TLC-stepped histories replayed on the code with full re-observation after each operation",
@@ -102,7 +106,8 @@ CLAIMED["C09"] = dict(category="model_checking",
          "given sealed tokens (Unforgeability: final). Replay: sealed twins keep content, revocation ids and verification, refuse Append/Seal "
          "before and after reload; the Authz instances are authorized with sealed (and sealed+reloaded) tokens and must give the model's verdicts; "
          "wire mutations of sealed and unsealed tokens abstracted into Chain terms (TraceChain); valid tokens written by another encoder "
-         "(raw writer variants and the repository's 28 reference-implementation samples) are sealed, attenuated and reloaded.",
+         "(raw writer variants and the repository's 28 reference-implementation samples) are sealed, attenuated and reloaded; the wire family's "
+         "tokens (all term kinds, caller-supplied base symbol tables) are sealed and must equal the open token in memory and after a round trip.",
     design="6/C09", technique="TLA+ chain model + TLC (SealPreserves, Unforgeability on sealed tokens); spec->code replay incl. sealed Authz instances",
     note=CHAIN_NOTE)
 CLAIMED["C16"] = dict(category="model_checking",
@@ -114,11 +119,13 @@ CLAIMED["C16"] = dict(category="model_checking",
 CLAIMED["C17"] = dict(category="model_checking",
     text="Chain.tla RevPerBlock / RevPrefix / RevUnique over all honest histories (identical contents on same and different tokens). Replay "
          "with fresh randomness: one id per block, equal to the signature an independent decoder finds, parent's ids as prefix, pairwise "
-         "distinct across signing operations.",
+         "distinct across signing operations, independent values (append to one returned id changes no other); over forked histories (siblings "
+         "of one parent, SymHeap) the ids of every live token are re-read after every operation.",
     design="6/C17", technique="TLA+ chain model + TLC; spec->code replay with independently decoded signatures",
     note=CHAIN_NOTE)
 CLAIMED["C20"] = dict(category="fault_enumeration",
-    text="Entropy.tla enumerates the complete fault space of the random source (4 operations x failure after k=0..32 bytes x 4 failure kinds x "
+    text="Entropy.tla enumerates the complete fault space of the random source (4 operations x failure after k=0..32 bytes x 11 failure kinds incl. "
+         "the error VALUE -- EOF, wrapped EOF, Temporary / Timeout errors, data and error in one Read -- x "
          "3 read sizes), TLC checks NoDegenerateKey / ErrorIffFault / termination and exports each case; every case is executed with a "
          "fault-injecting io.Reader in a worker process; outcome must be (nil, error) for k<32 and a verifying token with the key derived "
          "from the delivered bytes for k=32.",
@@ -140,14 +147,15 @@ CLAIMED["C10"] = dict(category="exploration",
          "cases) with a total specification of the 13-operation panel and fixed outcomes for gate-guarded fields; TLC enumerates and exports "
          "it. Each case is encoded with a raw protowire writer, validly signed by an attacker root so decoding, verification and evaluation "
          "are reached, and the panel runs in an isolated worker (recovered panic or process death = violation), together with 4k/150k seeded "
-         "byte-level corruptions of these tokens and 1.5k/40k of the repository's reference-implementation samples. TLA+ contributes the definition and exhaustive enumeration of the structured space; 'all byte strings' is sampled.",
+         "byte-level corruptions of these tokens and 1.5k/40k of the repository's reference-implementation samples; the operator sequences of "
+         "ExprMC and the expr family (incl. composed set expressions) are evaluated INSIDE such tokens. TLA+ contributes the definition and exhaustive enumeration of the structured space; 'all byte strings' is sampled.",
     design="6/C10 and 8", technique="TLA+ enumeration of the structured adversarial input space (TLC) + isolated-worker replay; seeded byte corruption",
     note="Exploration level: the space of all byte strings cannot be enumerated; coverage = spec-defined field/boundary combinations + random corruption.")
 CLAIMED["C14"] = dict(category="model_checking",
     text="Grammar.tla generates expression trees and renders them with exactly the parentheses the documented precedence/associativity "
          "table requires; TLC checks Denotes (Expr.tla's stack machine on the expected postfix form yields the value of the tree) for all "
          "trees with <=2 operators. GrammarElems.tla generates every element kind over 13 term forms with its denotation and the documented "
-         "error classes. Every token list is laid out with seeded whitespace, parsed by the FromString* functions and a shared Parser and "
+         "error classes (string literals with raw line breaks / escapes, predicate-free bodies, randomly drawn deep trees included). Every token list is laid out with seeded whitespace, parsed by the FromString* functions and a shared Parser and "
          "compared with the denotation; parsed elements are used (builder, block builder, authorizer); 6k/100k token-level corruptions run "
          "with oracle 'no panic'.",
     design="6/C14", technique="TLA+ grammar generator with denotation (TLC theorem Denotes); spec->code replay of generated texts; seeded token corruption",
@@ -160,10 +168,11 @@ CLAIMED["C15"] = dict(category="model_checking",
     note="String() lists are unambiguous only for <=1 fact/rule/check per block; richer blocks are inspected through Code(). Sets of strings are outside the property's printable domain.")
 CLAIMED["C18"] = dict(category="model_checking",
     text="Lifecycle.tla models SerializePolicies/LoadPolicies; TLC checks SnapshotEquiv and SaveRefusedIffEvaluated over all histories "
-         "(3x3 tokens x 24 contents x evaluated/unevaluated) and exports them; replay saves on the real authorizer, loads into a fresh one "
-         "for any token and compares verdict and query results with the model.",
+         "(3x3 tokens x 54 contents x evaluated/unevaluated), ResnapEquiv (a restored authorizer saved and restored again) and load-reset-load "
+         "histories, and exports them; replay saves on the real authorizer, loads into a fresh one for any token and compares verdict and query "
+         "results with the model; hand-encoded malformed snapshots and seeded byte corruptions of real snapshots must be refused without panic.",
     design="6/C18", technique="TLA+ lifecycle state machine + TLC; spec->code replay of save/load histories",
-    note=AUTHZ_NOTE + " Malformed snapshot bytes are exercised under C10's corruption operators, not here.")
+    note=AUTHZ_NOTE)
 
 PENDING_REASON = "check under construction in this round (specification module not yet bound to the code); not claimed until it runs green"
 
